@@ -249,6 +249,26 @@ def exec_for(I, node, env):
                 continue
         return
     if ann is None:
+        if isinstance(it, RangeVal) and isinstance(it.start, int) and it.start == 0 and isinstance(it.step, int) and it.step == 1:
+            # no proof is possible without an invariant; the first trip counts are still explored (forking on count == 0, 1, 2)
+            # so that a wrong result on such a path is REFUTED (and replayed) instead of only being reported as out of reach
+            from .values import PartialReach
+
+            i = 0
+            while True:
+                if I.branch(Z(it.stop) <= i):
+                    return
+                if i >= 2:
+                    raise PartialReach(f"loop {fname}#{k}: symbolic iteration space and no loop annotation")
+                I.ctx.tick("ticks")
+                I.assign(node.target, i, env)
+                i += 1
+                try:
+                    I.exec_block(node.body, env)
+                except BreakLoop:
+                    return
+                except ContinueLoop:
+                    continue
         raise OutOfReach(f"loop {fname}#{k}: symbolic iteration space and no loop annotation")
     _annotated(I, node, env, ann, fname, k, kind="for", iterable=it)
 
